@@ -5,19 +5,19 @@ V = '/verif'
 impl = subprocess.run([V + '/bin/f2gcheck', '-list'], capture_output=True, text=True).stdout.split()
 META = {
  'C01': ('§4 C01', 'symbolic range analysis (abstract interpretation over SSA) + value-provenance + typestate',
-         'Decides the envelope clause for every input/state: every Fan.SetPwm on the regulation path writes pwmMap[FindClosest(r, keys)] with r proved in [GetMinPwm()+offset, GetMaxPwm()] by a symbolic range analysis that treats curve value, control-loop output and RPM as unknown (so it covers all algorithms, NaN/absurd readings and histories); keys are proved recomputed after every map change.',
+         'Decides the envelope clause for every input/state: every Fan.SetPwm on the regulation path writes pwmMap[FindClosest(r, keys)] with r proved in [GetMinPwm()+offset, GetMaxPwm()] by a symbolic range analysis that treats curve value, control-loop output and RPM as unknown (so it covers all algorithms, NaN/absurd readings and histories); keys are proved recomputed after every map change; no forced SetMinPwm/SetMaxPwm/SetStartPwm on the regulation path (the limits the envelope is proved against do not move).',
          'assumes min<=max initially, PWM-map outputs in 0..255, ints < 2^53; FindClosest nearest-ness is C12 (not decided)'),
  'C02': ('§4 C02', 'symbolic range analysis + store/who-may-write rules',
          'Decides: request >= GetMinPwm()+offset on every non-error return; the offset only ever increases; the floor is raised only where request < GetMaxPwm() is established (the raised floor never passes the maximum); no forced SetMinPwm on the regulation path; the raise path returns >= stalled request + 1; non-neverStop fans have minimum 0.',
          'stall *detection* is C10; fan limits assumed 0<=min<=max<=255'),
  'C03': ('§4 C03', 'interprocedural typestate (must-pass-through) + channel typestate',
-         'Decides structural necessary conditions: every return of the control goroutine and the failed-initialisation return pass through a restore that ends in a confirmed mode switch-back to the recorded non-manual mode or SetPwm(255); the mode write is read back; the signal actor cancels the shared context; the notify channel is never closed without signal.Stop; every actor of the per-fan group returns the nil constant (a non-nil actor error reaches panic(err) in the daemon wrapper before any restore).',
+         'Decides structural necessary conditions: every return of the control goroutine and the failed-initialisation return pass through a restore that ends in a confirmed mode switch-back to the recorded non-manual mode or SetPwm(255); the mode write is read back; the signal actor cancels the shared context; the notify channel is never closed without signal.Stop; every actor of the per-fan group returns the nil constant (a non-nil actor error reaches panic(err) in the daemon wrapper before any restore); every Fan.SetPwm implementation writes to the device on every path that reports success.',
          'driver behaviour, timing and a failing final PWM write are not decided'),
  'C04': ('§4 C04', 'units-of-measure inference (dimension type inference by unification over SSA) + value-provenance/must-pass-through rule + monotonicity abstract interpretation',
-         'Decides three structural necessary conditions of "one steady target, the same for every algorithm": (R-scale) no value on the fan scale [min,max]/raw PWM is combined with, stored as, or passed for a value on the loop scale 0..255 anywhere in the controller and control-loop packages - in particular what ControlLoop.Cycle receives as current is on the same scale as its target; (R-feedback) that current value is the previous clamped result of Cycle, stored on every successful cycle; (R-clock) a loop routine that measures elapsed time against a remembered stamp refreshes the stamp on every path; (R-ownloop) the ControlLoop handed to a controller is created per controller (not a shared package-level or cached instance whose state another fan advances); (R-mono-steady) the request is non-decreasing in the curve value through the direct loop, clamp and rescale.',
+         'Decides three structural necessary conditions of "one steady target, the same for every algorithm": (R-scale) no value on the fan scale [min,max]/raw PWM is combined with, stored as, or passed for a value on the loop scale 0..255 anywhere in the controller and control-loop packages - in particular what ControlLoop.Cycle receives as current is on the same scale as its target; (R-feedback) that current value is the previous clamped result of Cycle, stored on every successful cycle; (R-clock) a loop routine that measures elapsed time against a remembered stamp refreshes the stamp on every path and is advanced only from control cycles / curve evaluations (not from constructors or start-up code); (R-ownloop) the ControlLoop handed to a controller is created per controller (not a shared package-level or cached instance whose state another fan advances); (R-mono-steady) the request is non-decreasing in the curve value through the direct loop, clamp and rescale.',
          'settling time, history independence (PID wind-up), PID within one step, equality of fixed points, the per-cycle difference bound and monotone approach are dynamics (not decided); dimension seeds are the documented meaning of the Fan/SpeedCurve/ControlLoop interfaces'),
  'C05': ('§4 C05', 'typestate + guarded-path rules + sibling term agreement',
-         'Decides: every successful cycle re-asserts manual mode (guarded only by ControlMode support); the write is skipped only when a fresh successful read equals the expected value; the third-party counter is incremented only under a fresh successful read differing from the same expected-value term the writer uses and is never reset (a whole-struct store of the statistics must carry the count over).',
+         'Decides: every successful cycle re-asserts manual mode (guarded only by ControlMode support); the write is skipped only when a fresh successful read equals the expected value; the third-party counter is incremented only under a fresh successful read differing from the same expected-value term the writer uses and is never reset (a whole-struct store of the statistics must carry the count over); every Fan.SetPwm implementation writes to the device on every path that reports success.',
          'assumes the fan reads back what was written (quantifier)'),
  'C06': ('§4 C06', 'symbolic range analysis with assume/guarantee on SpeedCurve.Evaluate',
          'Decides only the range clause 0..255 for linear(min/max), PID, and function types sum/difference/minimum/maximum/default, plus (R-members) that a function curve evaluates every configured member (one value per entry of function.curves on every path) and (R-current) that every successful return of Evaluate is preceded by SetValue of the returned value; agreement with the documented function, delta/average/steps are not decided.',
@@ -29,19 +29,19 @@ META = {
          'Decides the fault clause (no Sensor.GetValue - nor util.SafeCmdExecution behind the command sensor - converts a failed read into a value; the monitor never updates the average after a failed read; no value parsed by strconv.ParseFloat reaches the average without IsNaN/IsInf guards) and no implementation reads through an open handle remembered in the sensor object (every poll opens the configured source anew) and the one-step hull clause in real arithmetic (the stored average is UpdateSimpleMovingAvg(old, window, reading) of the same sensor, which is proved to lie between old average and reading for window >= 1).',
          'floating-point rounding and the geometric convergence rate are not decided'),
  'C09': ('§4 C09', 'crash-site inventory over the call graph + error-propagation/taint rules',
-         'Decides: no panic / does-not-return call / unchecked error type assertion is reachable from the per-cycle entry points on an error path; curve errors are propagated; cycle errors never reach a panic or an actor return; all actor returns of the per-fan group and the sensor monitor are nil; when the control goroutine gives up on a fan every return passes the restore typestate shared with C03; the value result of a fallible library call (pointer/interface, error) is dereferenced only where that call\'s error is established nil (os.Stat after a successful EvalSymlinks with the not-found case handled is the one documented exception); (R-iodata) every index, slice expression and integer division on data that comes from a standard-library call (file contents, command output, split lines) in the functions reachable from the per-cycle entries is proved in bounds by a dominating length guard, range loop or the range analysis; (R-lastgood) a failed sensor read never reaches the moving-average update; (R-errnil) methods are invoked on error values only where they are established non-nil.',
+         'Decides: no panic / does-not-return call / unchecked error type assertion is reachable from the per-cycle entry points on an error path; curve errors are propagated; cycle errors never reach a panic or an actor return; all actor returns of the per-fan group and the sensor monitor are nil; when the control goroutine gives up on a fan every return passes the restore typestate shared with C03; the value result of a fallible library call (pointer/interface, error) is dereferenced only where that call\'s error is established nil (os.Stat after a successful EvalSymlinks with the not-found case handled is the one documented exception); (R-iodata) every index, slice expression and integer division on data that comes from a standard-library call (file contents, command output, split lines) in the functions reachable from the per-cycle entries is proved in bounds by a dominating length guard, range loop or the range analysis; (R-lastgood) a failed sensor read never reaches the moving-average update; (R-errnil) methods are invoked on error values only where they are established non-nil; (R-registered) every configured sensor/curve/fan is registered (no iteration of a registering loop is skipped).',
          'library internals (prometheus, echo) summarised; usefulness of continued regulation not decided'),
  'C10': ('§4 C10', 'symbolic range analysis + data-flow rule on the stall predicate',
-         'Decides the step/termination structure (raise by >=1 on the stall path; (R-raise) the floor-raising store/call reached from the stall edge writes offset+k, k>=1, on every path, skipping only where GetMinPwm()+offset >= GetMaxPwm() is implied by the branch; stall at max returns the sentinel error which leads to restore), the poll structure (every poll of the RPM monitor feeds a reading into the average unless the RPM read itself failed) and the threshold precondition (a stall test against a non-positive constant on an exponential average can never fire once the fan has spun); not the latency itself.',
+         'Decides the step/termination structure (raise by >=1 on the stall path; (R-raise) the floor-raising store/call reached from the stall edge writes offset+k, k>=1, on every path, skipping only where GetMinPwm()+offset >= GetMaxPwm() is implied by the branch; stall at max returns the sentinel error which leads to restore), the poll structure (every poll of the RPM monitor feeds a reading into the average unless the RPM read itself failed; the polling goroutine ends only with the context) and the threshold precondition (a stall test against a non-positive constant on an exponential average can never fire once the fan has spun); not the latency itself.',
          'number of polls and pacing are timing (not decided)'),
  'C11': ('§4 C11', 'partial-operation inventory + validator-obligation rules + sibling agreement',
-         'Decides the crash-freedom half structurally: every configuration-dependent partial operation on the instantiate/evaluate path has a local guard or a verified validator check; factory and validator agree on backends; the run-time registries key objects by the id exactly as the validator compares it; cycle detection covers every member edge and only the own members of the curve (the edge list is not carried over from the curves listed before, which would reject acyclic configurations).',
+         'Decides the crash-freedom half structurally: every configuration-dependent partial operation on the instantiate/evaluate path has a local guard or a verified validator check; factory and validator agree on backends; the run-time registries key objects by the id exactly as the validator compares it and receive every configured entry; cycle detection covers every member edge and only the own members of the curve (the edge list is not carried over from the curves listed before, which would reject acyclic configurations).',
          'acceptance semantics, Tarjan correctness and the converse (documented forms accepted) are not decided'),
  'C12': ('§4 C12', 'value-provenance + typestate (composition only)',
          'Decides the composition: written value = pwmMap[FindClosest(request, keys)], keys = sorted(ExtractKeysWithDistinctValues(pwmMap)) recomputed after every map change, argument order correct, chosen key used as map index. Every supported input reported by the extraction is a key of the map. The search itself is not decided.',
          'nearest-ness / first-key-of-run / index arithmetic of the binary search are functional (not decided)'),
  'C13': ('§4 C13', 'who-may-write + guard-dominance rules',
-         'Decides the override discipline: limit fields written only by construction and the three setters; setter stores dominated by (configured==nil || force); attach passes force=false; no other forced call; empty data rejected before any store; attaching curve data overwrites the held data (parameter or a copy made in the call) on every path before the limits are derived; non-neverStop minimum is 0.',
+         'Decides the override discipline: limit fields written only by construction and the three setters; setter stores dominated by (configured==nil || force); attach passes force=false; no other forced call; empty data rejected before any store; attaching curve data overwrites the held data (parameter or a copy made in the call) on every path before the limits are derived; a limit the boundary computation consults through its getter is reset (setter with a constant, force=false) before deriving, so values measured from earlier data do not stick; non-neverStop minimum is 0.',
          'correctness of the boundary scan is functional (not decided)'),
  'C14': ('§4 C14', 'value-provenance (bucket/key terms) + transaction-structure + result-path rules',
          'Decides isolation and transaction structure: each method uses the bucket constant of its kind and the fan id as key, all bucket access inside one Update closure, ErrNotExist/Delete/nil results on the documented paths, no method reports success on a path that did not run its transaction, sibling methods agree.',
@@ -53,13 +53,13 @@ META = {
          'Decides mutual exclusion by lock coverage: with runFanInitializationInParallel=false every Fan.SetPwm reachable from the analysis entry points holds the global initialisation mutex, one analysis holds it without a gap, and fan-driving work handed to a goroutine is joined (unconditional receive / WaitGroup.Wait) on every path before the spawner returns and releases the mutex.',
          'sound for mutex-based exclusion; restore path excluded'),
  'C17': ('§4 C17', 'value-provenance templates + guarded-path + crash-site rules',
-         'Decides: sysfs paths are SysfsPath/fan<rpm>_input, pwm<pwm>, pwm<pwm>_enable and all HwMonFan I/O uses them; pwmChannel defaulted only when 0; index/channel compared for every candidate; no-match returns an error; a sensor index is the running position among the chip\'s temperature inputs (discovery keys the map with a counter, not with a number from the device name); no unchecked map/index/assert in binding code; (R-holes) the device lists of the discovery/binding packages contain no nil element (a list of pointers pre-sized with make(n) must store its slot in every iteration).',
+         'Decides: sysfs paths are SysfsPath/fan<rpm>_input, pwm<pwm>, pwm<pwm>_enable and all HwMonFan I/O uses them; pwmChannel defaulted only when 0; index/channel compared for every candidate; no-match returns an error; a sensor index is the running position among the chip\'s temperature inputs (discovery keys the map with a counter, not with a number from the device name); no unchecked map/index/assert in binding code; no in-place filtering of a parameter device list (R-alias); (R-holes) the device lists of the discovery/binding packages contain no nil element (a list of pointers pre-sized with make(n) must store its slot in every iteration).',
          'regex semantics and enumeration-order independence beyond first-match not decided'),
  'C18': ('§4 C18', 'who-may-call + dominance (guarded-path) + predicate-path rules',
          'Decides the property at the level of code paths: only the checked entry point creates processes with a non-constant program; the exec call is reachable only through the nil-error edge of the permission check on the same value in the same activation (no memoisation); the check establishes uid==0, (gid==0 or no group write), no other write on the resolved file; nothing changes how the checked program string is resolved between check and start (no store to Cmd.Dir/Path/Args); (R-once) one successful check licenses one process start: after a process-creating call no further one is reachable in the same activation without crossing the nil-error edge of a new check (no retry loop around the start); the validator applies it to the config file whenever a cmd entry exists; the daemon starts only after validation.',
          'TOCTOU between check and exec is outside the statement; os/exec, os.Stat semantics trusted'),
  'C19': ('§4 C19', 'typestate on *exec.Cmd + blocking-operation and crash-site inventory + error-propagation',
-         'Decides the structural preconditions of the bound: CommandContext with WithTimeout(timeout<=2s), WaitDelay set before Output, no unbounded blocking operation and no comma-less error assertion in the call tree, value results of fallible library calls used only where their error is nil, cmd.ProcessState (nil for a command that could not be started) used only under a nil test or through nil-tolerant methods, failures returned as errors, parse errors returned by the cmd fan/sensor methods; (R-iodata) command output is indexed / sliced only under a length guard in the consumers of SafeCmdExecution; (R-errnil) methods are invoked on error values only where they are established non-nil (Output() may return nil although the deadline fired).',
+         'Decides the structural preconditions of the bound: CommandContext with WithTimeout(timeout<=2s), WaitDelay set before Output, no unbounded blocking operation and no comma-less error assertion in the call tree, value results of fallible library calls used only where their error is nil, cmd.ProcessState (nil for a command that could not be started) used only under a nil test or through nil-tolerant methods, failures returned as errors, parse errors returned by the cmd fan/sensor methods; (R-iodata) command output is indexed / sliced only under a length guard in the consumers of SafeCmdExecution; (R-errnil) methods are invoked on error values only where they are established non-nil (Output() may return nil although the deadline fired); (R-unlock) a mutex taken by the command consumers is released on every path.',
          'the wall-clock bound itself is timing (not decided)'),
  'C20': ('§4 C20', 'lockset-based static race detection over a thread model',
          'Decides a may-race over-approximation: every (field, thread-class pair) with a write and no mutex held by both accesses, by at least one of them exclusively (RLock is a shared mode), is reported; today\'s pairs are recorded as known findings, any new pair is a violation.',
